@@ -32,6 +32,7 @@ type Frame struct {
 	// Kind of frame: normal call, deferred call (result discarded), thread root...
 	IsDeferCall bool
 	IsGoRoot    bool // root frame of a goroutine run inline
+	Atomic      bool // frame of a replaced library function (e.g. the sync.Map model): no preemption inside
 	// merge frame marker (pure callee merging)
 	Result Value // set on return when RetTo==nil and frame is a root
 }
@@ -134,7 +135,19 @@ type State struct {
 	MergeResult Value
 	Steps0      int
 	ClockLast *smt.Term
-	ClockFrozen bool // time.Now() returns the previous reading (harness primitive vclockFreeze)
+	ClockFrozen bool
+	// thread mode (threads.go)
+	Threads        []*Thread
+	Cur            int // running thread, -1 = not in thread mode
+	Preempt        int // remaining preemption budget
+	SharedMax      int // objects with id <= SharedMax existed before the threads started
+	MainFrames     []*Frame
+	PendingThreads []FuncV
+	StartThreads   bool
+	NeedSchedule   bool
+	NoPreemptNext  bool
+	Locks          map[auxKey]lockState
+	BlockedNow     *threadBlocked // time.Now() returns the previous reading (harness primitive vclockFreeze)
 }
 
 func (st *State) top() *Frame { return st.Frames[len(st.Frames)-1] }
@@ -170,6 +183,24 @@ func (st *State) clone() *State {
 	for k, v := range st.Globals {
 		n.Globals[k] = v
 	}
+	if len(st.Threads) > 0 {
+		n.Threads = make([]*Thread, len(st.Threads))
+		for i, t := range st.Threads {
+			if i == st.Cur {
+				// the running thread's stack is st.Frames (already cloned above)
+				c := *t
+				c.Frames = n.Frames
+				n.Threads[i] = &c
+			} else {
+				n.Threads[i] = t.clone()
+			}
+		}
+		n.MainFrames = make([]*Frame, len(st.MainFrames))
+		for i, f := range st.MainFrames {
+			n.MainFrames[i] = f.clone()
+		}
+	}
+	n.PendingThreads = append([]FuncV(nil), st.PendingThreads...)
 	n.undo = append([]undoRec(nil), st.undo...)
 	n.decisions = append([]int(nil), st.decisions...)
 	n.script = append([]int(nil), st.script...)
